@@ -236,6 +236,8 @@ inline std::string diff_model(const Observed &o, const Model &m, bool check_decl
 inline std::string full_dump(econf_file *kf, bool with_ext = true) {
   Observed o = observe(kf);
   std::string r = show(o);
+  // the delimiter and comment tags are part of what an object is (a later write uses them)
+  r += "tags: delimiter=" + std::to_string((int)econf_delimiter_tag(kf)) + " comment=" + std::to_string((int)econf_comment_tag(kf)) + "\n";
   if (with_ext) {
     for (auto &sk : o.keys)
       for (auto &k : sk.second) {
